@@ -3,6 +3,7 @@ package sim
 import (
 	"errors"
 	"fmt"
+	"google.golang.org/grpc/codes"
 	"io"
 
 	"github.com/jhump/grpctunnel/tunnelpb"
@@ -111,15 +112,17 @@ const (
 	IDDevFramesForFinished
 	IDDevSkipAhead
 	IDDevFrameForNeverCreated
+	IDDevFramesForRefusedID // a stream refused because the server is draining: its further frames are ignored
+	IDDevReuseRefusedID     // ... and its id counts as seen: using it again ends the tunnel
 	NumIDDev
 )
 
-var idDevNames = [...]string{"none", "reuse-live-id", "reuse-finished-id", "backwards-id", "negative-id", "frames-for-finished-id", "skip-ahead", "frame-for-never-created-id"}
+var idDevNames = [...]string{"none", "reuse-live-id", "reuse-finished-id", "backwards-id", "negative-id", "frames-for-finished-id", "skip-ahead", "frame-for-never-created-id", "frames-for-id-refused-while-draining", "reuse-id-refused-while-draining"}
 
 // tunnelLevel says whether the documented outcome of the deviation is the end of the tunnel.
 func idDevTunnelLevel(d int) bool {
 	switch d {
-	case IDDevReuseLive, IDDevReuseFinished, IDDevBackwards, IDDevNegative, IDDevFrameForNeverCreated:
+	case IDDevReuseLive, IDDevReuseFinished, IDDevBackwards, IDDevNegative, IDDevFrameForNeverCreated, IDDevReuseRefusedID:
 		return true
 	}
 	return false
@@ -132,6 +135,10 @@ type rawIDState struct {
 	devSent   bool
 	rc        *RawClient
 	probeSent bool
+	// draining deviations
+	draining      bool
+	refusedClosed bool
+	refusedCode   int32
 }
 
 func runIDRaw(w *World, rs *RunSpec) {
@@ -218,6 +225,31 @@ func runIDRaw(w *World, rs *RunSpec) {
 			probe = skip + 7
 		case IDDevFrameForNeverCreated:
 			rc.SendMessage(probe+100, RequestBytes(0, 0, 10), 0)
+		case IDDevFramesForRefusedID, IDDevReuseRefusedID:
+			// the real end starts draining; the next stream is refused
+			// (Unavailable), which finishes with its id like any other outcome
+			t := w.Tunnels[0]
+			// (the real end must be serving: draining before Serve has
+			// registered the tunnel refuses the tunnel itself)
+			simrt.AwaitIdle() // everything sent so far has been delivered and acted upon
+			if t.RevServer != nil {
+				simrt.Go("graceful", func() { t.RevServer.GracefulStop() })
+				simrt.AwaitIdle()
+			} else {
+				t.Handler.InitiateShutdown()
+			}
+			st.draining = true
+			refused := probe - 2
+			mk(refused, 50) // new_stream + message + half-close
+			rc.WaitFor(func() bool { ok, _, _ := rc.Closed(refused); return ok })
+			st.refusedClosed, st.refusedCode, _ = rc.Closed(refused)
+			if dev == IDDevFramesForRefusedID {
+				rc.SendMessage(refused, RequestBytes(0, 0, 10), 0)
+				rc.Send(FHalf(refused))
+				rc.Send(FCancelFrame(refused))
+			} else {
+				mk(refused, 51)
+			}
 		}
 		st.devSent = true
 		simrt.Count(CntFaultPeerMisbehave, 1)
@@ -321,7 +353,22 @@ func OracleIDRaw(w *World, h *History) {
 		return
 	}
 	// stream-level / harmless deviations: the tunnel must still work
-	if !probeClosed || probeCode != 0 {
+	if st.draining {
+		// a draining server refuses every new stream with Unavailable, the
+		// probe included; what matters is that the tunnel is still there to
+		// answer, and that nothing reached a handler
+		if !st.refusedClosed || st.refusedCode != int32(codes.Unavailable) {
+			w.AddViolation("C08", "finished-id-frame-effect", fmt.Sprintf("a stream started while the server is draining was not refused with Unavailable (closed=%v code=%d)", st.refusedClosed, st.refusedCode), det, devSeq)
+		}
+		if !probeClosed || probeCode != int32(codes.Unavailable) {
+			w.AddViolation("C08", "finished-id-frame-effect", fmt.Sprintf("after %s a later stream (id %d) was not answered with Unavailable (closed=%v code=%d; tunnel ended: %v %v)", idDevNames[st.dev], st.lastID, probeClosed, probeCode, rc.Ended, rc.RecvErr), det, devSeq)
+		}
+		for _, id := range []int{50, 60} {
+			if r := h.RPCs[id]; r != nil && len(r.Handlers) > 0 {
+				w.AddViolation("C08", "double-invocation", fmt.Sprintf("a stream refused while draining (rpc %d) reached a handler", id), det, r.Handlers[0].Start)
+			}
+		}
+	} else if !probeClosed || probeCode != 0 {
 		w.AddViolation("C08", "finished-id-frame-effect", fmt.Sprintf("after %s a later valid stream (id %d) did not complete OK (closed=%v code=%d; tunnel ended: %v %v)", idDevNames[st.dev], st.lastID, probeClosed, probeCode, rc.Ended, rc.RecvErr), det, devSeq)
 	}
 	if st.dev == IDDevSkipAhead {
